@@ -1,4 +1,4 @@
-import ClusterVerif.Lemmas.C06
+import ClusterVerif.Lemmas.C06F
 
 /-!
 # C06 — reported pin status is truthful and consistent between its two views
@@ -177,5 +177,200 @@ the lookup by the pin's own mode -/
 theorem gen_local_status_shape :
     Gen.localStatusMasks = [maskState, maskIpfs, stSharded, stRemote] ∧
     Gen.listedTypes = ["direct", "recursive"] ∧ Gen.lookupByPinMode = true := by decide
+
+/-! ## Round 7 — failing resources, any daemon answer, PinInfo content, Recover -/
+
+/-- The model with failing resources and arbitrary daemon answers (`statusF`,
+`statusAllF`) is the model of the theorems above when nothing fails and the
+daemon is a go-ipfs one (a daemon that is down = every query fails). -/
+theorem faultfree_refines (i : Input) (f : Nat) :
+    statusAllF i.toF f = statusAll i f ∧ ∀ r, statusF i.toF (r.toF i.ipfsUp) = status i r :=
+  ⟨statusAllF_toF i f, statusF_toF i⟩
+
+/-- The filter law WITHOUT the assumption that the daemon is a go-ipfs one: for
+every filter, whenever the unfiltered listing could be made and every answer the
+listing uses is a pinned type (direct / recursive — in whichever of the two
+listings, consistent with what is held or not). -/
+theorem filter_law_any_answer (i : FInput) (f : Nat) (h0 : listFailed i 0 = false)
+    (hs : ∀ r ∈ i.recs, saneMode r) :
+    statusAllF i f = (statusAllF i 0).filter (fun e => matchF e.2 f) :=
+  statusAllF_filter i f h0 hs
+
+/-- a listing that lost a resource it needs is empty (never partial) -/
+theorem listing_all_or_nothing (i : FInput) (f : Nat) (h : listFailed i f = true) : statusAllF i f = [] :=
+  statusAllF_failed i f h
+
+/-- … and a listing that lost none is complete: every CID whose per-CID status
+is a definite one (not an error status, not unpinned) that matches the filter is
+listed with that status (daemon answering from some IPFS pin set, no fault on
+the path of `Status` for this CID). Together: no partial listing is ever
+returned as a listing. -/
+theorem listing_complete (i : FInput) (f : Nat) (r : FRec) (h : Ipfs) (hc : r.coherentHeld = some h)
+    (hf : listFailed i f = false) (hs : sFault i r = false)
+    (hne : statusF i r ≠ stUnpinned) (herr : isErr (statusF i r) = false) (hm : matchF (statusF i r) f = true) :
+    listEntryF i f r = some (statusF i r) :=
+  listEntryF_complete i f r h (coherentHeld_spec hc) hf hs hne herr hm
+
+/-- The law for EVERY daemon answer. -/
+def filter_law_every_answer : Prop :=
+  ∀ (i : FInput) (f : Nat), listFailed i 0 = false →
+    statusAllF i f = (statusAllF i 0).filter (fun e => matchF e.2 f)
+
+/-- It fails: a daemon that lists a CID with a type string
+`IPFSPinStatusFromString` does not know (status `undefined`, which matches every
+filter) — and one that puts an `indirect` entry into a typed listing. Neither is
+an IPFS pin set (go-ipfs answers `pin/ls?type=recursive|direct` with those types
+only), so this is outside the statement's quantifier; the witnesses are replayed
+on the real tracker by `corpus/C06/faults.txt`. -/
+theorem filter_law_every_answer_fails : ¬ filter_law_every_answer := by
+  intro h
+  have := h ⟨0, false, false, false, false,
+    [⟨0, some ⟨false, 1, 1, [0], -1⟩, ⟨none, some .bug, .bug⟩, none, false, false⟩]⟩ stPinError (by decide)
+  revert this
+  decide
+
+example : statusAllF ⟨0, false, false, false, false,
+    [⟨0, some ⟨false, 1, 1, [0], -1⟩, ⟨none, some .indirect, .indirect⟩, none, false, false⟩]⟩ 0 = [(0, stUnpinned)] ∧
+  statusAllF ⟨0, false, false, false, false,
+    [⟨0, some ⟨false, 1, 1, [0], -1⟩, ⟨none, some .indirect, .indirect⟩, none, false, false⟩]⟩ stUnpinned = [] := by decide
+
+/-- Under faults the two views still agree, or both give an error status, or
+the disagreement comes from a fault and the view that lost its resource says
+so: the listing by failing as a whole (it has no error return: it is empty),
+`Status` with cluster_error. For a daemon answering from some IPFS pin set. -/
+theorem views_agree_under_faults (i : FInput) (r : FRec) (h : Ipfs) (hc : r.coherentHeld = some h) :
+    statusF i r = (listEntryF i 0 r).getD stUnpinned ∨
+    (isErr (statusF i r) = true ∧ isErr ((listEntryF i 0 r).getD stUnpinned) = true) ∨
+    (listFailed i 0 = true ∧ listEntryF i 0 r = none) ∨
+    (sFault i r = true ∧ statusF i r = stClusterError) :=
+  agree_faults i r h (coherentHeld_spec hc)
+
+example : (⟨0, some ⟨false, 1, 1, [0], -1⟩, wellBehaved (some ⟨false, 1, 1, [0], -1⟩) .recursive, none, false, true⟩ : FRec).coherentHeld
+    = some .recursive := by decide
+
+/-- Nothing is reported `pinned` that the daemon was not confirmed to hold, for
+every fault combination and every answer: `Status` says pinned only if the state
+and `PinLsCid` answered and the answer is a pinned type; a listing has a pinned
+entry only if the listing lost no resource and the daemon's listing for the
+pin's mode has the CID with a pinned type. -/
+theorem truthful_under_faults (i : FInput) (r : FRec) :
+    (statusF i r = stPinned →
+      i.stateErr = false ∧ r.getErr = false ∧ r.lsCidErr = false ∧ r.expectedHere i.self = true ∧
+        pinnedType r.ans.lsCid = true) ∧
+    (∀ f, listEntryF i f r = some stPinned →
+      listFailed i f = false ∧ r.expectedHere i.self = true ∧ ∃ s, r.modeAns = some s ∧ pinnedType s = true) :=
+  ⟨pinnedS_faults i r, fun f => pinnedL_faults i f r⟩
+
+/-- A fault on the path of `Status` is reported as cluster_error, not hidden
+(unless the operation table answers, which needs none of the resources). -/
+theorem status_fault_reported (i : FInput) (r : FRec) (ho : opEntryO r.op = none) :
+    ((i.stateErr = true ∨ r.getErr = true) → statusF i r = stClusterError) ∧
+    (r.expectedHere i.self = true → r.lsCidErr = true → statusF i r = stClusterError) :=
+  fault_reported i r ho
+
+/-- for a go-ipfs daemon "a pinned type was answered" is `IsPinned(depth)` -/
+theorem wellBehaved_isPinned (p : Pin) (h : Ipfs) :
+    pinnedType (pinLsCid p h) = ipfsIsPinned (pinLsCid p h) p.depth := by
+  cases h <;> by_cases hd : p.depth = 0 <;> by_cases hn : p.depth < 0 <;>
+    simp [pinLsCid, Pin.direct, pinnedType, ipfsIsPinned, hd, hn] <;> omega
+
+/-- PinInfo content: the error text is non-empty exactly for the error
+statuses — except for the failed no-op of a pin allocated elsewhere. -/
+theorem error_text_iff_partial (i : FInput) (r : FRec) (h : r.op ≠ some ⟨.remote, .error⟩) :
+    errTextS i r = isErr (statusF i r) :=
+  errText_iff i r h
+
+def error_text_iff_full : Prop := ∀ (i : FInput) (r : FRec), errTextS i r = isErr (statusF i r)
+
+/-- K06e: status remote with an error text. -/
+theorem error_text_iff_full_fails : ¬ error_text_iff_full := by
+  intro h
+  have := h ⟨0, false, false, false, false, []⟩
+    ⟨0, some ⟨false, 1, 1, [1], -1⟩, ⟨none, none, .unpinned⟩, some ⟨.remote, .error⟩, false, false⟩
+  revert this
+  decide
+
+/-- Recover: an item in a recoverable error is answered with the status of the
+operation `Recover` has just enqueued — the same status both views give for the
+state `Recover` leaves — and every other item with its unchanged status. -/
+theorem recover_consistent (i : Input) (r : Rec) (ph : Phase) (hq : ph = .queued ∨ ph = .inProgress)
+    (hup : i.ipfsUp = true) :
+    (recoverable (status i r) = true →
+      ∃ o, recoverOp (status i r) ph = some o ∧ recover i r ph = opStatus o ∧
+        listEntry i 0 (afterRecover r (status i r) ph) = some (recover i r ph) ∧
+        recoverable (recover i r ph) = false) ∧
+    (recoverable (status i r) = false → recover i r ph = status i r) := by
+  have hph : ph ≠ .done := by rcases hq with rfl | rfl <;> decide
+  unfold recover afterRecover recoverOp recoverable
+  constructor
+  · intro h
+    by_cases h1 : (status i r == stPinError || status i r == stUnexpectedlyUnpinned) = true
+    · simp only [h1, ↓reduceIte]
+      refine ⟨_, rfl, status_with_op i r _ hph, ?_, ?_⟩
+      · rw [status_with_op i r _ hph]; exact listEntry_with_op i r _ hph hup
+      · rw [status_with_op i r _ hph]; rcases hq with rfl | rfl <;> rfl
+    · have h2 : (status i r == stUnpinError) = true := by
+        simp only [Bool.or_eq_true, not_or] at h1 h
+        rcases h with (h | h) | h
+        · exact absurd h h1.1
+        · exact h
+        · exact absurd h h1.2
+      simp only [h1, h2, Bool.false_eq_true, ↓reduceIte]
+      refine ⟨_, rfl, status_with_op i r _ hph, ?_, ?_⟩
+      · rw [status_with_op i r _ hph]; exact listEntry_with_op i r _ hph hup
+      · rw [status_with_op i r _ hph]; rcases hq with rfl | rfl <;> rfl
+  · intro h
+    simp only [Bool.or_eq_false_iff] at h
+    simp [h.1.1, h.1.2, h.2]
+
+example : recover ⟨0, true, []⟩ ⟨0, some ⟨false, 1, 1, [0], -1⟩, .unpinned, none⟩ .queued = stPinQueued := by decide
+
+/-- Cluster-wide views under faults: `Cluster.Status` / `Cluster.StatusAll`
+return an error exactly when the state or `consensus.Peers` fail (no partial
+map); otherwise every peer appears at most once, and a member whose call failed
+is marked cluster_error — for an allocated peer in `Cluster.Status` (`gcHolds`),
+for every listed CID in `Cluster.StatusAll` — never silently dropped. -/
+theorem global_once_under_faults :
+    (∀ i : GCidF,
+      (globalCidF i = none ↔ (i.stateErr = true ∨ (i.base.follower = false ∧ i.peersErr = true))) ∧
+      ∀ m, globalCidF i = some m → peerOnce m = true ∧ gcHolds i.base m = true) ∧
+    (∀ i : GSliceF,
+      (globalSliceF i = none ↔ (i.base.follower = false ∧ i.peersErr = true)) ∧
+      ∀ m, globalSliceF i = some m →
+        (∀ e ∈ m, peerOnce e.2 = true ∧ ∀ p ∈ erroredMembers i.base, lookup e.2 p = some stClusterError) ∧
+        peerOnce (m.map (fun e => (e.1, 0))) = true) := by
+  constructor
+  · intro i
+    unfold globalCidF
+    constructor
+    · cases i.stateErr <;> cases i.base.follower <;> cases i.peersErr <;> simp
+    · intro m hm
+      cases hs : i.stateErr <;> cases hf : i.base.follower <;> cases hp : i.peersErr <;>
+        simp [hs, hf, hp] at hm <;> subst hm <;> exact ⟨global_once _, gc_holds _⟩
+  · intro i
+    unfold globalSliceF
+    constructor
+    · cases i.base.follower <;> cases i.peersErr <;> simp
+    · intro m hm
+      have hm' : m = globalSlice i.base := by
+        cases hf : i.base.follower <;> cases hp : i.peersErr <;> simp [hf, hp] at hm <;> exact hm.symm
+      subst hm'
+      have h := globalSlice_inv i.base
+      exact ⟨fun e he => ⟨h.2 e he, globalSlice_failed_marked i.base e he⟩, (peerOnce_cids _).mpr h.1⟩
+
+example : globalSlice ⟨0, false, [0, 1, 2], [], [(0, .ok [(5, stPinned)]), (1, .err), (2, .ok [(5, stRemote), (5, stRemote)])]⟩
+    = [(5, [(0, stPinned), (2, stRemote), (1, stClusterError)])] := by decide
+
+/-- `IPFSPinStatusFromString`, `IsPinned`: the model's functions are today's
+(the switch has the three cases the model has; samples and near misses
+evaluated with the linked function). -/
+theorem gen_from_string :
+    Gen.fromStringCases = ["prefix:indirect", "prefix:recursive", "exact:direct"] ∧
+    Gen.fromStringSamples.all (fun e =>
+      (match ipfsFromString e.1 with
+       | .bug => 0 | .error => 1 | .direct => 2 | .recursive => 3 | .indirect => 4 | .unpinned => 5) == e.2) = true ∧
+    Gen.isPinned = [IpfsStatus.bug, .error, .direct, .recursive, .indirect, .unpinned].map (fun s =>
+      [(-1 : Int), 0, 1, 2].map (fun d => ipfsIsPinned s d)) := by
+  refine ⟨by decide, by decide, by decide⟩
 
 end CV.C06
